@@ -1810,6 +1810,15 @@ func (g *Gen) call0(c *ssa.CallCommon, res ssa.Value, st *State, pos token.Pos) 
 		g.note("spec used: sync/atomic.Add*")
 		return
 	}
+	if (name == "sync/atomic.LoadInt64" || name == "sync/atomic.LoadInt32") && g.all[name] == nil {
+		// sequential reading of an atomic load: the value of the cell (no contract given for it in the unit)
+		a := g.resolveAddr(args[0], st)
+		if a.kind != "unknown" {
+			setRes(w.loadAddr(a, st, c.Signature().Results().At(0).Type()))
+			g.note("spec used: sync/atomic.Load* reads the cell")
+			return
+		}
+	}
 	if callee, ok := c.Value.(*ssa.Function); ok {
 		if ctr := g.lookupContract(callee); ctr != nil {
 			var ats []Term
